@@ -1,0 +1,10 @@
+//go:build verif
+
+package admission
+
+// VerifWebhookPath exposes createWebhookPath (the service path registered in the
+// Validating/MutatingWebhookConfiguration for a binding) to the verification harness.
+// Add-only; built with -tags verif only.
+func VerifWebhookPath(webhook IWebhookConfig) string {
+	return *createWebhookPath(webhook)
+}
